@@ -395,6 +395,12 @@ def mapq_world():
         reads.append(W.read_of("inter1_%d" % q, "chr2", [[5001, 5400]], polya=False, mapq=q))        # unannotated region, 1 exon
         reads.append(W.read_of("inter2_%d" % q, "chr2", [[6001, 6300], [6601, 6900]], polya=False, mapq=q))
         reads.append(W.read_of("inter3_%d" % q, "chr2", i3, mapq=q))
+        # alignments that are neither consistent nor inconsistent but are processed together with a gene: a mono-exonic read inside the
+        # gene's first intron, and a mono-exonic intergenic read 600 bp behind the gene that one bridging read (MAPQ 60) puts into the
+        # gene's read cluster - whether they are reported must not depend on the company they are processed in
+        reads.append(W.read_of("intronic_%d" % q, "chr1", [[1351 + 2 * MAPQS.index(q), 1550]], polya=False, mapq=q))
+        reads.append(W.read_of("near_%d" % q, "chr1", [[3201, 3600 + 2 * MAPQS.index(q)]], polya=False, mapq=q))
+    reads.append(W.read_of("bridge_60", "chr1", [[2501, 3300]], polya=False, mapq=60))
     w["reads"] = reads
     return w
 
@@ -408,7 +414,8 @@ def mapq_expected(opts, annotated):
     simple = int(o.get("--simple_alignments_mapq_cutoff", 1))
     exp = set()
     for q in MAPQS:
-        for kind, nex, genic in (("cons", 3, True), ("incons", 2, True), ("inter1", 1, False), ("inter2", 2, False), ("inter3", 3, False)):
+        for kind, nex, genic in (("cons", 3, True), ("incons", 2, True), ("inter1", 1, False), ("inter2", 2, False), ("inter3", 3, False),
+                                 ("intronic", 1, False), ("near", 1, False)):
             if q < mn:
                 continue
             if genic and annotated:
@@ -418,6 +425,8 @@ def mapq_expected(opts, annotated):
                 if nex <= 2 and q < simple:
                     continue
             exp.add("%s_%d" % (kind, q))
+    if mn <= 60:
+        exp.add("bridge_60")
     return exp
 
 
